@@ -49,6 +49,7 @@ type Script struct {
 	Fault     *Fault     `json:"fault,omitempty"`
 	PanicSite string     `json:"panic_site,omitempty"`
 	NReq      int        `json:"nreq"`
+	Leave     string     `json:"leave,omitempty"` // window0-reset: rst, close, goaway-close
 }
 
 var col = vstat.New("C10", "c10.robust")
@@ -136,7 +137,15 @@ func genMuts(t *rapid.T) []Mutation {
 
 func gen(t *rapid.T) Script {
 	s := Script{ALPN: rapid.SampledFrom([]string{"h2", "http/1.1", ""}).Draw(t, "alpn"), NReq: rapid.IntRange(1, 3).Draw(t, "nreq")}
-	switch s.Kind = rapid.SampledFrom([]string{"bytes", "mutate-plain", "mutate-plain", "mutate-plain", "mutate-tls", "truncate", "stall", "iofault", "iofault", "panic", "panic", "h2-frames", "h2-frames", "h2-frames", "stall-reset"}).Draw(t, "kind"); s.Kind {
+	switch s.Kind = rapid.SampledFrom([]string{"bytes", "mutate-plain", "mutate-plain", "mutate-plain", "mutate-tls", "truncate", "stall", "iofault", "iofault", "panic", "panic", "h2-frames", "h2-frames", "h2-frames", "stall-reset", "window0-reset"}).Draw(t, "kind"); s.Kind {
+	case "window0-reset":
+		// a client that announces a zero stream window, asks for responses a user-supplied handler writes
+		// in one large Write (ignoring the error, as handlers do), and then resets the streams or leaves:
+		// the handler's write fails half-way; whatever state the server recycles from it must be clean
+		s.ALPN = "h2"
+		s.Limit = int64(rapid.SampledFrom([]int{4097, 5000, 20000, 100000}).Draw(t, "size"))
+		s.NReq = rapid.IntRange(1, 6).Draw(t, "streams")
+		s.Leave = rapid.SampledFrom([]string{"rst", "rst", "close", "goaway-close"}).Draw(t, "leave")
 	case "h2-frames":
 		// after a real handshake and preface: frames from the defect grammar (padding and priority
 		// fields, wrong fixed lengths, zero increments, reserved bits, unknown types)
@@ -145,6 +154,8 @@ func gen(t *rapid.T) Script {
 		for i := 0; i < n; i++ {
 			if rapid.IntRange(0, 3).Draw(t, "valid") == 0 {
 				s.Garbage = append(s.Garbage, validPlaintext("h2", 1)[len(xhttp2.ClientPreface):]...)
+			} else if rapid.IntRange(0, 3).Draw(t, "interrupted") == 0 {
+				s.Garbage = append(s.Garbage, framegen.Interrupted(t)...)
 			} else {
 				s.Garbage = append(s.Garbage, framegen.Frame(t)...)
 			}
@@ -287,6 +298,18 @@ func exec(t *testing.T, s Script) *vstat.Violation {
 				})
 			}
 		}
+		if s.Kind == "window0-reset" {
+			opts.WrapHandler = func(next http.Handler) http.Handler {
+				return http.HandlerFunc(func(w http.ResponseWriter, r *http.Request) {
+					var n int
+					if _, err := fmt.Sscanf(r.URL.Path, "/direct/%d", &n); err == nil {
+						w.Write(bigBody(n)) // one Write, error ignored
+						return
+					}
+					next.ServeHTTP(w, r)
+				})
+			}
+		}
 		if s.Kind == "stall-reset" {
 			// With periodic or immediate flushing ReverseProxy's maxLatencyWriter holds a sync.Mutex while its
 			// Write is blocked by the stalled client, and its flush timer then waits on that mutex: a
@@ -350,7 +373,7 @@ func exec(t *testing.T, s Script) *vstat.Violation {
 				go raw.Write(s.Garbage)
 				drain(raw)
 				return
-			case "h2-frames", "stall-reset":
+			case "h2-frames", "stall-reset", "window0-reset":
 				c, err := rig.Handshake(raw, rig.ClientOpts{StdALPN: []string{"h2"}})
 				if err != nil {
 					return
@@ -365,6 +388,28 @@ func exec(t *testing.T, s Script) *vstat.Violation {
 					}()
 					go func() { time.Sleep(40 * time.Second); c.Conn.Close() }()
 					drain(c.Conn)
+					return
+				}
+				if s.Kind == "window0-reset" {
+					peer := rig.NewH2Peer(c.Conn)
+					peer.Start()
+					peer.Fr.WriteSettings(xhttp2.Setting{ID: xhttp2.SettingInitialWindowSize, Val: 0})
+					time.Sleep(100 * time.Millisecond)
+					for i := 0; i < s.NReq; i++ {
+						peer.SendH2(uint32(1+2*i), rig.ReqSpec{Method: "GET", Path: fmt.Sprintf("/direct/%d", s.Limit), Authority: "x"}, nil)
+					}
+					time.Sleep(time.Second) // the handlers are blocked in their Write now
+					switch s.Leave {
+					case "rst":
+						for i := 0; i < s.NReq; i++ {
+							peer.Fr.WriteRSTStream(uint32(1+2*i), xhttp2.ErrCodeCancel)
+						}
+						time.Sleep(2 * time.Second)
+					case "goaway-close":
+						peer.Fr.WriteGoAway(0, xhttp2.ErrCodeNo, nil)
+						time.Sleep(100 * time.Millisecond)
+					}
+					c.Conn.Close()
 					return
 				}
 				peer := rig.NewH2Peer(c.Conn)
@@ -435,9 +480,30 @@ func exec(t *testing.T, s Script) *vstat.Violation {
 			return
 		}
 		// oracle 1b: other connections get their own, complete, unaltered responses (several streams at once)
-		if v := checkBig(by2, s, 6); v != nil {
+		if v := checkBig(by2, s, 6, "/big/"); v != nil {
 			viol = v
 			return
+		}
+		if s.Kind == "window0-reset" {
+			// the handlers that failed have returned; many more requests than there were victims, on an old and on
+			// new connections
+			if v := checkBig(by2, s, 12, "/direct/"); v != nil {
+				viol = v
+				return
+			}
+			for i := 0; i < 3; i++ {
+				cc, err := rig.Connect(p, []string{"h2"}, nil)
+				if err != nil {
+					viol = vstat.Violf(s.Kind+"|not-accepting-afterwards", "%s: %v", describe(s), err)
+					return
+				}
+				v := checkBig(cc, s, 8, "/direct/")
+				cc.Close()
+				if v != nil {
+					viol = v
+					return
+				}
+			}
 		}
 		// oracle 2: a fresh control connection is accepted and served
 		for _, a := range []string{"http/1.1", "h2"} {
@@ -519,7 +585,7 @@ var _ = errors.New
 
 func TestRobust(t *testing.T) {
 	rig.Certs()
-	col.Mandatory("kind:bytes", "kind:mutate-plain", "kind:mutate-tls", "kind:truncate", "kind:stall", "kind:iofault", "kind:panic", "kind:h2-frames", "kind:stall-reset", "past-tls-handshake",
+	col.Mandatory("kind:bytes", "kind:mutate-plain", "kind:mutate-tls", "kind:truncate", "kind:stall", "kind:iofault", "kind:panic", "kind:h2-frames", "kind:stall-reset", "kind:window0-reset", "past-tls-handshake",
 		"panic-site:GetCertificate", "panic-site:GetConfigForClient", "panic-site:VerifyConnection", "panic-site:ConnState", "panic-site:injector", "panic-site:handler",
 		"fault:Read", "fault:Write", "fault:SetDeadline", "fault:Close")
 	vstat.Run(t, vstat.Spec[Script]{Col: col, Quick: 1500, Thorough: 40000, Gen: gen, Exec: func(s Script) *vstat.Violation { return exec(t, s) }})
@@ -602,7 +668,7 @@ func bigBody(n int) []byte {
 
 // checkBig opens k concurrent streams for bodies of different sizes on an established HTTP/2 connection
 // and verifies every byte.
-func checkBig(cc *rig.ClientConn, s Script, k int) *vstat.Violation {
+func checkBig(cc *rig.ClientConn, s Script, k int, prefix string) *vstat.Violation {
 	if cc.H2 == nil {
 		return nil
 	}
@@ -617,7 +683,7 @@ func checkBig(cc *rig.ClientConn, s Script, k int) *vstat.Violation {
 	base := cc.NextStreamID()
 	for i := 0; i < k; i++ {
 		sid := base + uint32(2*i)
-		if err := cc.H2.SendH2(sid, rig.ReqSpec{Method: "GET", Path: fmt.Sprintf("/big/%d", sizes[i%len(sizes)]), Authority: "x"}, nil); err != nil {
+		if err := cc.H2.SendH2(sid, rig.ReqSpec{Method: "GET", Path: fmt.Sprintf("%s%d", prefix, sizes[i%len(sizes)]), Authority: "x"}, nil); err != nil {
 			return vstat.Violf(s.Kind+sitePart(s)+"|other-connection-disturbed", "%s: bystander cannot send: %v", describe(s), err)
 		}
 		cc.H2.Fr.WriteWindowUpdate(sid, 1<<20)
